@@ -207,6 +207,11 @@ pub fn c08_alphabet(fam: Family) -> Vec<Ast> {
             Ast::Unsuback { pid: 10, props: vec![], codes: vec![0x11, 0] },
             Ast::Publish { dup: false, qos: 0, retain: false, topic: "".into(), pid: None, props: vec![Prop { id: 0x23, val: PVal::U16(3) }, Prop { id: 0x0B, val: PVal::VarInt(16384) }], payload: vec![] },
             Ast::Subscribe { pid: 9, props: vec![Prop { id: 0x0B, val: PVal::VarInt(128) }], topics: vec![("a".into(), 0x2E)] },
+            // property sections whose length needs two bytes (128) - every decoder that keeps its own byte accounting
+            Ast::Unsubscribe { pid: 10, props: vec![Prop { id: 0x26, val: PVal::Pair("k".repeat(123), String::new()) }], topics: vec!["a".into()] },
+            Ast::Subscribe { pid: 9, props: vec![Prop { id: 0x26, val: PVal::Pair("k".repeat(123), String::new()) }], topics: vec![("a".into(), 1)] },
+            Ast::Suback { pid: 9, props: vec![Prop { id: 0x1F, val: PVal::Str("r".repeat(125)) }], codes: vec![1, 0x80] },
+            Ast::Publish { dup: false, qos: 0, retain: false, topic: "t".into(), pid: None, props: vec![Prop { id: 0x26, val: PVal::Pair("k".repeat(123), String::new()) }], payload: vec![0x30, 0x00] },
         ]);
     } else {
         a.push(Ast::Ack { typ: 11, pid: 0xD000, code: 0, props: vec![] });
